@@ -42,6 +42,18 @@ func TestD17IntersectBounded(t *testing.T) {
 	}
 }
 
+// D26: Distance subtracted coordinates after converting them to radians, losing the separation of
+// nearby positions in the rounding of the conversion (1.4e-9 relative at 0.74 m, 2e-8 at 0.1 m).
+func TestD26NearbyPositions(t *testing.T) {
+	p := geo.NewProcessor()
+	// true great-circle distance on the default sphere, computed with 60 digits: 0.73999999940234209553...
+	d := p.Distance(52.6, -123.2, 52.59999413057655, -123.2000051382145)
+	const truth = 0.7399999994023421
+	if rel := math.Abs(d-truth) / truth; rel > 1e-9 {
+		t.Fatalf("distance %v, true %v: relative error %.3g > 1e-9", d, truth, rel)
+	}
+}
+
 // D25: a segment along a meridian has azimuths of exactly 0 or 180 at the crossing, which share a
 // sign bit, so the sign comparison took a crossing beyond the segment's end for one inside it.
 func TestD25MeridionalSegment(t *testing.T) {
